@@ -46,6 +46,16 @@ int main(int argc, char** argv) {
                 o.put_u64(rec.v.size());
                 for (auto& x : rec.v) { o.put_u64(x[0]); o.put_u64(x[1]); }
             }
+        } else if (m == "psplit") {
+            // (size left right)* -> size of the right part produced by blocked_range's proportional splitting constructor
+            for (size_t i = 0; i + 2 < c.size(); i += 3) {
+                u64 sz = (u64)c[i];
+                tbb::blocked_range<u64> r(0, sz, 1);
+                tbb::proportional_split ps((size_t)c[i + 1], (size_t)c[i + 2]);
+                tbb::blocked_range<u64> r2(r, ps);
+                o.put_u64(r2.size());
+                if (r.size() + r2.size() != sz || r.end() != r2.begin()) o.word("BROKEN");
+            }
         } else if (m == "chunks") {
             int part = (int)c[0], P = (int)c[1]; u64 b = (u64)c[2], e = (u64)c[3], g = (u64)c[4];
             Rec rec; tbb::affinity_partitioner ap;
